@@ -222,6 +222,18 @@ theorem C04_three_valued :
   generalize Opnd.eval r a = v
   cases v <;> simp [Opnd.eval]
 
+/-- **NULL-safe equality** (`EQUAL_NULL(a, b)`, `a IS NOT DISTINCT FROM b`; `IS DISTINCT FROM` is its negation) is two-valued on
+    every row: TRUE when both sides are NULL or equal non-NULLs, FALSE otherwise — in particular FALSE, not UNKNOWN, when exactly
+    one side is NULL, so `NOT EQUAL_NULL(col, x)` is TRUE on the rows where `col` is NULL and UPDATE/DELETE must affect them. -/
+theorem C04_equal_null (a b : Opnd) (r : Row) :
+    (Pred.eqNull a b).eval r ≠ .u ∧
+    ((Pred.eqNull a b).eval r = .t ↔ a.eval r = b.eval r) ∧
+    ((Pred.not (Pred.eqNull a b)).eval r = .t ↔ a.eval r ≠ b.eval r) ∧
+    (Pred.eqNull a b).eval r = (Pred.eqNull b a).eval r := by
+  simp only [Pred.eval]
+  cases ha : Opnd.eval r a <;> cases hb : Opnd.eval r b <;> simp [Tri.ofBool, Tri.not]
+  · rename_i x y; by_cases h : x = y <;> simp [h, Tri.not, eq_comm]
+
 /-! ### execute_string, nop_regexes -/
 
 /-- **`execute_string` = one cursor per statement**: when every statement of the script is accepted, the i-th
